@@ -74,14 +74,17 @@ def util(ctx, world, ev):
                "returning path requires exactly num <= maxval" if ok else
                "the overflow guard is not 'num > maxval raises': conditions %s" % sorted(show(t, maxdepth=3) + "=" + str(p) for t, p in conds), site)
     for o in rets:
-        allowed = {(mk_app("Gt", (num, maxval)), False), (mk_app("LtE", (num, maxval)), True), (mk_app("Lt", (maxval, num)), False), (mk_app("GtE", (maxval, num)), True)}
+        allowed = {(mk_app("Gt", (num, maxval)), False), (mk_app("LtE", (num, maxval)), True), (mk_app("Lt", (maxval, num)), False), (mk_app("GtE", (maxval, num)), True),
+                   # the domain is 0 <= n: refusing negative numbers refuses nothing that has an encoding
+                   (mk_app("LtE", (Const(0), num)), True), (mk_app("Lt", (num, Const(0))), False)}
         extra = [show(t, maxdepth=4) + "=" + str(p) for (t, p, _) in o.state.pc[len(world.static.pc):]
                  if (t, p) not in allowed and not is_app(t, "isinstance") and not (is_app(t, "Eq", "NotEq") and any(is_app(a, "len") for a in t.args))]
         ctx.ob("K1-total", "number_to_bytes", not extra, "every 0 <= n <= maxval is encoded (no other condition on the returning path)" if not extra else
                "number_to_bytes also requires %s: some n <= maxval are refused" % extra, site)
     over = [o for o in outs if o.kind == "raise" and ((mk_app("Gt", (num, maxval)), True) in conds_of(o) or (mk_app("LtE", (num, maxval)), False) in conds_of(o)
                                                       or (mk_app("Lt", (maxval, num)), True) in conds_of(o))]
-    ok = bool(over) and all(len(o.state.pc) - len(world.static.pc) == 1 for o in over)
+    nonneg = {(mk_app("LtE", (Const(0), num)), True), (mk_app("Lt", (num, Const(0))), False)}
+    ok = bool(over) and all(len([c for c in o.state.pc[len(world.static.pc):] if (c[0], c[1]) not in nonneg]) == 1 for o in over)
     ctx.ob("K1-guard", "number_to_bytes raises for num > maxval", ok, "n > maxval raises before anything is encoded" if ok else
            "no path raises under exactly the condition num > maxval", site)
     # decoder
@@ -104,7 +107,7 @@ def integer_group(ctx, world, ev):
         outs = ev.run_method(g, meth_enc, [i], st=st.fork())
         rets = session.rets(outs)
         ctx.require(rets, "%s.%s has no returning path" % (gname, meth_enc))
-        wf = f.get(wfield)
+        wf = gm.attr_of(ev, g, wfield, st)
         for o in rets:
             extra = [show(t, maxdepth=4) + "=" + str(p) for (t, p, _) in o.state.pc if any(x == i for x in subterms(t))
                      and not is_app(t, "isinstance") and not (is_app(t, "Eq", "NotEq") and any(is_app(a, "len") for a in t.args))
@@ -141,7 +144,7 @@ def integer_group(ctx, world, ev):
     outs = ev.run_method(e, "to_bytes", [], st=st.fork())
     rets = session.rets(outs)
     ctx.require(rets, "integer element to_bytes has no returning path")
-    wf = f.get("element_size_bytes")
+    wf = gm.attr_of(ev, g, "element_size_bytes", st)
     for o in rets:
         v = o.value
         ok = is_app(v, "int2be") and v.args[0] == a and v.args[1] == wf and wf in width_forms(p)
@@ -176,7 +179,7 @@ def ed25519(ctx, world, ev):
     ctx.require(len(oo) == 1 and isinstance(oo[0].value, Const), "anchor vanished: Ed25519 order()")
     L = oo[0].value
     gf = world.static.heap[G.oid]
-    ssz, esz = gf.get("scalar_size_bytes"), gf.get("element_size_bytes")
+    ssz, esz = gm.attr_of(ev, G, "scalar_size_bytes", world.static), gm.attr_of(ev, G, "element_size_bytes", world.static)
     ctx.ob("K4-width", "Ed25519 sizes", ssz == Const(32) and esz == Const(32), "scalar_size_bytes = element_size_bytes = 32" if ssz == Const(32) and esz == Const(32) else
            "Ed25519 sizes are %s / %s, released format has 32 / 32" % (show(ssz), show(esz)))
     y = Sym("y", "int")
@@ -239,13 +242,27 @@ def ed25519(ctx, world, ev):
                     xx = affine(t.args[0] if t.args[1] == Const(1) else t.args[1])
                     if xx == X:
                         par = p
+            if par is None:
+                # branch-free spelling, e.g. y | ((x & 1) << 255): decided by substituting both parities
+                from ..terms import subst
+                pts = [t for t in subterms(val) if (is_app(t, "BitAnd") and Const(1) in t.args and affine(t.args[0] if t.args[1] == Const(1) else t.args[1]) == X)
+                       or (is_app(t, "Mod") and t.args[1] == Const(2) and affine(t.args[0]) == X)]
+                if pts:
+                    v1 = subst(val, {t: Const(1) for t in pts})
+                    v0 = subst(val, {t: Const(0) for t in pts})
+                    ok1 = is_app(v1, "Add", "BitOr") and bit in v1.args and affine([a for a in v1.args if a != bit][0]) == Y
+                    ok0 = affine(v0) == Y
+                    ok = ok1 and ok0
+                    seen_set, seen_clear = seen_set or ok1, seen_clear or ok0
+                    why = "branch-free: x odd -> %s, x even -> %s" % (show(v1, maxdepth=4), show(v0, maxdepth=4))
             if par is True:
                 ok = (is_app(val, "Add", "BitOr") and bit in val.args and affine([a for a in val.args if a != bit][0]) == Y)
                 seen_set = seen_set or ok
             elif par is False:
                 ok = affine(val) == Y
                 seen_clear = seen_clear or ok
-            why = "parity condition %s, value %s" % (par, show(val, maxdepth=5))
+            if par is not None:
+                why = "parity condition %s, value %s" % (par, show(val, maxdepth=5))
         ctx.ob("K5-encoder", "Ed25519 point to_bytes", ok, "32-byte little-endian y with bit 255 = x & 1 (%s)" % why if ok else
                "point encoder path is not rev(int2be(y | (x&1) << 255, 32)): %s" % why, o.site)
     ctx.ob("K5-encoder", "both parities", seen_set and seen_clear, "both parity cases encode" if seen_set and seen_clear else
